@@ -153,13 +153,13 @@ PROPS["C15"] = dict(level="exploration",
     rule="seeded walks of 20 ops (valid reconfigurations of 1-3 named MultiEndpoints over 5 shared endpoints, endpoint outages/recoveries, settle+routed RPCs unary and streaming for no-name/known/unknown contexts); non-trivial = every walk (each performs routed RPC checks and pool-set checks); distinct = hash of the op log",
     assumptions=GME_ASSUME,
     stages=[dict(name="gme", engine="gme", test="TestVerifGME", batches=dict(quick=8, thorough=16), crash_props=["C15", "C16"],
-                 essential={"C15": ["C15.route", "C15.route:no-name", "C15.route:unknown-name", "C15.route:known", "C15.route-stream", "C15.pools", "C15.immediate", "C15.no-redial", "C15.outage", "C15.recovery", "C15.concurrent-updates", "C15.route:removed-name", "C15.rpcs-during-update"]},
+                 essential={"C15": ["C15.route", "C15.route:no-name", "C15.route:unknown-name", "C15.route:known", "C15.route-stream", "C15.pools", "C15.immediate", "C15.no-redial", "C15.outage", "C15.recovery", "C15.concurrent-updates", "C15.route:removed-name", "C15.rpcs-during-update", "C15.flip-during-rejected-update"]},
                  timeout=dict(quick=1200, thorough=7200))])
 PROPS["C16"] = dict(level="fault_enumeration",
     rule="enumerated fault kinds {default missing, empty list for an existing ME, empty list for a new ME, dial failure at the 1st/2nd/3rd dial, valid} applied in seeded sequences of 1-4 updates on top of random legitimate changes (Go map order varies per repetition), and failed constructions {dial failure at dial 1/2, default missing, empty list}; non-trivial = every case (each ends with Close() and the leak check); distinct = hash of the op log incl. the dial order actually taken",
     assumptions=GME_ASSUME + ["client-side goroutines are recognised by frames of monitoredConn.monitor, grpc.addrConn/ClientConn/ccBalancerWrapper/ccResolverWrapper, transport.http2Client"],
     stages=[dict(name="gme", engine="gme", test="TestVerifGME", batches=dict(quick=8, thorough=16), crash_props=["C15", "C16"],
-                 essential={"C16": ["C16.rejected", "C16.routing-unchanged", "C16.update:default-missing", "C16.update:existing-empty", "C16.update:new-empty", "C16.update:dial-fail", "C16.failed-construction", "C16.close", "C16.no-goroutine-left", "C16.accepted-update", "C16.redial-after-rollback", "C16.delayed-switch-target-removed", "C16.owner-closed-conn"]},
+                 essential={"C16": ["C16.rejected", "C16.routing-unchanged", "C16.update:default-missing", "C16.update:default-removed", "C16.invalid-update-drops-me", "C16.update:existing-empty", "C16.update:new-empty", "C16.update:dial-fail", "C16.failed-construction", "C16.close", "C16.no-goroutine-left", "C16.accepted-update", "C16.redial-after-rollback", "C16.delayed-switch-target-removed", "C16.owner-closed-conn"]},
                  timeout=dict(quick=1200, thorough=7200))])
 
 PROPS["C10"] = dict(level="exploration",
